@@ -110,6 +110,7 @@ pub open spec fn wf_node_body(h: Heap, n: int) -> bool {
     &&& !(s.goal is Nil)
     &&& opt_kid(h, n, s.child) && opt_kid(h, n, s.head_sn) && opt_kid(h, n, s.tail_sn)
     &&& (s.goal is OperatorGoal ==> s.head_sn is Some)
+    &&& (s.goal is BuiltInGoal ==> s.head_sn is None)
     &&& 0 <= s.rule_index && 0 <= s.number_facts_rules <= usize::MAX
     &&& s.call_depth <= s.depth && (s.goal is ComplexGoal ==> s.call_depth == s.depth)
     // the cut disables backtracking on the nodes of its parent chain, each together with its head node (the goals to the left)
@@ -668,11 +669,12 @@ pub open spec fn up(h: Heap, n: int, a: int) -> bool
         None => false,
     }
 }
+// m is the head node of a node strictly above n on the walk (the walk flags the head nodes of the ancestors, not the one of n itself)
 pub open spec fn head_of_up(h: Heap, n: int, m: int) -> bool {
-    exists|a: int| alive(h, a) && #[trigger] up(h, n, a) && h.st[a].head_sn == Some(m)
+    exists|a: int| alive(h, a) && a != n && #[trigger] up(h, n, a) && h.st[a].head_sn == Some(m)
 }
 // ASSUMED (T8, unsafe code): what the raw-pointer walk of set_no_backtracking() does, started on node n -
-// the flag is set on n and on every node up the parent_node links, and on the head node of each of these; nothing else changes.
+// the flag is set on n and on every node up the parent_node links, and on the head node of each of those ancestors (not of n itself); nothing else changes.
 // (`on_chain` is the ghost record of "was on the walk".)  Checked on the real function by a bounded Kani harness.
 pub open spec fn walked(h: Heap, h2: Heap, n: int) -> bool {
     &&& h2.st.dom() =~= h.st.dom() && h2.locked == h.locked && h2.out == h.out
@@ -704,7 +706,7 @@ pub proof fn lemma_up_in_call(h: Heap, n: int, a: int)
     }
 }
 pub proof fn lemma_walk(h: Heap, h2: Heap, n: int)
-    requires inv(h), alive(h, n), walked(h, h2, n),
+    requires inv(h), alive(h, n), walked(h, h2, n), h.st[n].head_sn is None,
     ensures inv(h2), flags_kept_above(h, h2, h.st[n].call_depth),
             forall|l: Set<int>| #[trigger] ev(h, h2, l),
             h2.st[n].no_backtracking,
@@ -728,7 +730,7 @@ pub proof fn lemma_walk(h: Heap, h2: Heap, n: int)
             match s.head_sn {
                 Some(x) => {
                     assert(alive(h, x));
-                    if !s.on_chain { assert(up(h, n, m)); assert(head_of_up(h, n, x)); }
+                    if !s.on_chain { assert(up(h, n, m)); assert(m != n); assert(head_of_up(h, n, x)); }
                 },
                 None => {},
             }
@@ -740,7 +742,7 @@ pub proof fn lemma_walk(h: Heap, h2: Heap, n: int)
         implies alive(h2, m) && h2.st[m].no_backtracking == h.st[m].no_backtracking by {
         if up(h, n, m) { lemma_up_in_call(h, n, m); }
         if head_of_up(h, n, m) {
-            let a = choose|a: int| alive(h, a) && #[trigger] up(h, n, a) && h.st[a].head_sn == Some(m);
+            let a = choose|a: int| alive(h, a) && a != n && #[trigger] up(h, n, a) && h.st[a].head_sn == Some(m);
             lemma_up_in_call(h, n, a);
             assert(wf_node(h, a));
         }
